@@ -398,6 +398,48 @@ def _is_boolish(e):
     return (e.ty or '').strip() == 'bool' or (e.k == 'field' and e.name == '1') or (e.k == 'const' and e.c.get('ty') == 'bool')
 
 
+
+def carry_by_comparison(cx, rule, crates):
+    """A borrow (carry) out of the three-operand limb step d = a - b - c (s = a + b + c) cannot be read off ONE comparison
+    `d > a` (`s < a`): for b = 2^64-1 and c = 1 the step wraps all the way round, d = a, and the comparison says "no
+    borrow".  Correct forms take the flag of each of the two steps (overflowing_sub twice, or two comparisons) and OR
+    them.  The rule reports every comparison of a doubly wrapped difference / sum with its own first operand; the expected
+    number of such sites is zero."""
+    from .prov import strip, norm
+    from .builder import Canon
+    F = cx.F
+    bad = []
+    seen = 0
+    for name, fn in sorted(F.fns.items()):
+        if not name.startswith(tuple(crates)):
+            continue
+        cmps = [(b, i, st) for b, i, st in fn.stmts() if st['k'] == 'assign' and st['rv']['k'] == 'binop' and st['rv']['op'] in ('Gt', 'Lt', 'Ge', 'Le')]
+        if not cmps:
+            continue
+        P = Prov(fn, F, cut_loops=True)
+        cn = Canon(fn, P)
+        for b, i, st in cmps:
+            seen += 1
+            x, y = strip(norm(P.operand(st['rv']['a'], b, i))), strip(norm(P.operand(st['rv']['b'], b, i)))
+            op = st['rv']['op']
+            for big, small, kind in ((x, y, 'sub' if op in ('Gt', 'Ge') else 'add'), (y, x, 'sub' if op in ('Lt', 'Le') else 'add')):
+                # kind 'sub': big is the doubly wrapped difference compared as  d > a ;  kind 'add': big is the sum in  s < a
+                w = 'wrapping_sub' if kind == 'sub' else 'wrapping_add'
+                def nested(e):
+                    e = strip(e)
+                    if e.k == 'call' and last(e.name) == w and len(e.args) == 2:
+                        inner = strip(e.args[0])
+                        if inner.k == 'call' and last(inner.name) == w and len(inner.args) == 2:
+                            return inner.args[0]
+                    return None
+                first = nested(big)
+                if first is not None and cn.c(first) == cn.c(small):
+                    bad.append((fn, b, cn.c(big)))
+    for fn, b, txt in bad:
+        cx.violate(rule, 'cmp-idiom/%s' % fn.short, 'the carry/borrow out of a three-operand limb step is taken from one comparison of %s with its first operand: wrong when the middle operand is all ones and a carry comes in' % txt[:80], G.where(fn, b))
+    if not bad:
+        cx.hold(rule, 'cmp-idiom', 'no carry/borrow is derived from a single comparison of a doubly wrapped sum or difference with its first operand (%d comparisons inspected)' % seen)
+
 def carry_chain(cx, rule, crates, floor, only=None, exclude=()):
     from .prov import strip
     from . import rules_l as L
